@@ -22,7 +22,8 @@ type mIterRes struct {             // an iterator result object
 	done  bool
 }
 type mPromise struct {
-	state     int // 0 pending 1 fulfilled 2 rejected
+	tampered  bool // its 'constructor' is not %Promise%: PromiseResolve(%Promise%, p) does not return p itself
+	state     int  // 0 pending 1 fulfilled 2 rejected
 	value     mValue
 	reactions []func(state int, v mValue)
 }
@@ -474,7 +475,15 @@ func (m *ctlModel) then(p *mPromise, r func(state int, v mValue)) {
 
 func (m *ctlModel) promiseResolve(v mValue) *mPromise {
 	if p, ok := v.(*mPromise); ok {
-		return p
+		if !p.tampered {
+			return p
+		}
+		// a new promise resolved with the thenable p: NewPromiseResolveThenableJob calls p.then(resolve, reject) in a job
+		p2 := &mPromise{}
+		m.jobs = append(m.jobs, func() {
+			m.then(p, func(state int, val mValue) { m.settle(p2, state, val) })
+		})
+		return p2
 	}
 	p := &mPromise{}
 	m.settle(p, 1, v)
